@@ -1,7 +1,907 @@
-//! C23 — not implemented yet.
+//! C23 — HTTP writes acknowledged as queued are never silently dropped.
+//! Engine: httpmc — breadth-first exploration of request sequences against a live in-process
+//! `searchlite_http::run` server (one fresh server + directory per explored transition), compared
+//! step by step with a queue model; states are deduplicated on (model queue, model committed).
+//!
+//! The `pub` items in the first half of this file (live server, raw HTTP/1.1 client) are shared
+//! with C24.
+
+use std::collections::{BTreeMap, HashMap, HashSet};
+use std::io::{Read, Write};
+use std::net::{SocketAddr, TcpListener, TcpStream};
+use std::path::{Path, PathBuf};
+use std::sync::Once;
+use std::time::{Duration, Instant};
+
+use parking_lot::Mutex;
+use rayon::prelude::*;
+use serde_json::{json, Value};
+
+use vcore::ev::Reporter;
+use vcore::world::Scratch;
+
 use crate::Ctx;
 
-pub fn run(_ctx: &Ctx) -> i32 {
-  eprintln!("C23: check not implemented");
-  2
+// =============================================================================================
+// Shared: live server
+// =============================================================================================
+
+static PORTS_IN_USE: Mutex<Option<HashSet<u16>>> = Mutex::new(None);
+static PANIC_LOG: Mutex<Option<HashMap<u16, Vec<String>>>> = Mutex::new(None);
+static INIT: Once = Once::new();
+
+const THREAD_PREFIX: &str = "slhttp-";
+
+/// Process-wide setup, once: (1) tokio's signal driver replaces the default SIGTERM/SIGINT
+/// disposition as soon as the first server calls `shutdown_signal`, so keep the process killable;
+/// (2) panics raised on server threads are recorded per port instead of being printed.
+fn global_init() {
+  INIT.call_once(|| {
+    std::thread::Builder::new()
+      .name("sig-exit".into())
+      .spawn(|| {
+        let rt = tokio::runtime::Builder::new_current_thread().enable_all().build().expect("signal runtime");
+        rt.block_on(async {
+          use tokio::signal::unix::{signal, SignalKind};
+          let mut term = signal(SignalKind::terminate()).expect("SIGTERM listener");
+          let mut int = signal(SignalKind::interrupt()).expect("SIGINT listener");
+          tokio::select! { _ = term.recv() => {}, _ = int.recv() => {} }
+        });
+        vcore::world::cleanup_scratch_root();
+        std::process::exit(143);
+      })
+      .expect("spawn signal thread");
+    let prev = std::panic::take_hook();
+    std::panic::set_hook(Box::new(move |info| {
+      let t = std::thread::current();
+      if let Some(port) = t.name().and_then(|n| n.strip_prefix(THREAD_PREFIX)).and_then(|p| p.parse::<u16>().ok()) {
+        let loc = info.location().map(|l| format!("{}:{}", l.file(), l.line())).unwrap_or_default();
+        let msg = if let Some(s) = info.payload().downcast_ref::<&str>() {
+          s.to_string()
+        } else if let Some(s) = info.payload().downcast_ref::<String>() {
+          s.clone()
+        } else {
+          "<non-string panic>".into()
+        };
+        PANIC_LOG.lock().get_or_insert_with(HashMap::new).entry(port).or_default().push(format!("{msg} @ {loc}"));
+      } else {
+        prev(info);
+      }
+    }));
+  });
+}
+
+fn pick_port() -> u16 {
+  let mut tries = 0;
+  loop {
+    let l = match TcpListener::bind("127.0.0.1:0") {
+      Ok(l) => l,
+      Err(e) => {
+        tries += 1;
+        if tries > 2000 {
+          vcore::ev::machinery_failure(&format!("no free loopback port: {e}"));
+        }
+        std::thread::sleep(Duration::from_millis(10));
+        continue;
+      }
+    };
+    let p = l.local_addr().expect("local addr").port();
+    drop(l);
+    let mut g = PORTS_IN_USE.lock();
+    if g.get_or_insert_with(HashSet::new).insert(p) {
+      return p;
+    }
+  }
+}
+
+fn release_port(p: u16) {
+  if let Some(s) = PORTS_IN_USE.lock().as_mut() {
+    s.remove(&p);
+  }
+  if let Some(m) = PANIC_LOG.lock().as_mut() {
+    m.remove(&p);
+  }
+}
+
+/// A live `searchlite_http::run` server on 127.0.0.1:<port>, on its own tokio runtime. Dropping it
+/// tears the runtime down (the listener closes) and removes its scratch directory.
+pub struct Server {
+  pub port: u16,
+  #[allow(dead_code)]
+  pub index_dir: PathBuf,
+  rt: Option<tokio::runtime::Runtime>,
+  handle: tokio::task::JoinHandle<anyhow::Result<()>>,
+  _scratch: Option<Scratch>,
+}
+
+impl Server {
+  /// Fresh scratch directory, index path `<scratch>/idx` (not created: the server starts with no
+  /// index). `extra` = additional command-line flags.
+  pub fn fresh(tag: &str, extra: &[&str]) -> Server {
+    let scratch = Scratch::new(tag);
+    let dir = scratch.sub("idx");
+    let mut s = Server::start(&dir, extra);
+    s._scratch = Some(scratch);
+    s
+  }
+
+  pub fn start(index_dir: &Path, extra: &[&str]) -> Server {
+    global_init();
+    let mut last_err = String::new();
+    for _attempt in 0..50 {
+      let port = pick_port();
+      let mut argv: Vec<String> = vec![
+        "searchlite-http".into(),
+        "--index".into(),
+        index_dir.display().to_string(),
+        "--bind".into(),
+        format!("127.0.0.1:{port}"),
+        "--shutdown-grace-secs".into(),
+        "0".into(),
+      ];
+      argv.extend(extra.iter().map(|s| s.to_string()));
+      let args = <searchlite_http::ServeArgs as clap::Parser>::try_parse_from(argv).unwrap_or_else(|e| vcore::ev::machinery_failure(&format!("ServeArgs: {e}")));
+      let rt = tokio::runtime::Builder::new_multi_thread()
+        .worker_threads(1)
+        .max_blocking_threads(8)
+        .thread_keep_alive(Duration::from_millis(200))
+        .thread_name(format!("{THREAD_PREFIX}{port}"))
+        .enable_all()
+        .build()
+        .unwrap_or_else(|e| vcore::ev::machinery_failure(&format!("tokio runtime: {e}")));
+      let handle = rt.spawn(searchlite_http::run(args));
+      let deadline = Instant::now() + Duration::from_secs(20);
+      let mut up = false;
+      while Instant::now() < deadline {
+        if handle.is_finished() {
+          break;
+        }
+        if let Ok(r) = exchange(port, &request_bytes("GET", "/healthz", None, None), Duration::from_millis(500)) {
+          if r.status == 200 {
+            up = true;
+            break;
+          }
+        }
+        std::thread::sleep(Duration::from_micros(300));
+      }
+      if up && !handle.is_finished() {
+        return Server { port, index_dir: index_dir.to_path_buf(), rt: Some(rt), handle, _scratch: None };
+      }
+      last_err = if handle.is_finished() {
+        match rt.block_on(handle) {
+          Ok(Err(e)) => format!("{e:#}"),
+          Ok(Ok(())) => "server returned".into(),
+          Err(e) => format!("join: {e}"),
+        }
+      } else {
+        "no /healthz answer in 20 s".into()
+      };
+      rt.shutdown_background();
+      release_port(port);
+    }
+    vcore::ev::machinery_failure(&format!("cannot start HTTP server: {last_err}"));
+  }
+
+  /// False once `run` has returned (bind failure, fatal error): the conversation was void.
+  pub fn is_running(&self) -> bool {
+    !self.handle.is_finished()
+  }
+
+  /// Panics raised on this server's threads so far (message @ file:line), drained.
+  pub fn take_panics(&self) -> Vec<String> {
+    PANIC_LOG.lock().as_mut().and_then(|m| m.remove(&self.port)).unwrap_or_default()
+  }
+
+  pub fn send(&self, method: &str, path: &str, ctype: Option<&str>, body: Option<&[u8]>) -> Result<Resp, String> {
+    exchange(self.port, &request_bytes(method, path, ctype, body), Duration::from_secs(20))
+  }
+
+  pub fn post_json(&self, path: &str, v: &Value) -> Result<Resp, String> {
+    self.send("POST", path, Some("application/json"), Some(v.to_string().as_bytes()))
+  }
+}
+
+impl Drop for Server {
+  fn drop(&mut self) {
+    self.handle.abort();
+    if let Some(rt) = self.rt.take() {
+      rt.shutdown_background();
+    }
+    release_port(self.port);
+  }
+}
+
+// =============================================================================================
+// Shared: raw HTTP/1.1 client
+// =============================================================================================
+
+#[derive(Debug, Clone)]
+pub struct Resp {
+  pub status: u16,
+  pub headers: Vec<(String, String)>,
+  pub body: Vec<u8>,
+}
+
+impl Resp {
+  pub fn header(&self, name: &str) -> Option<&str> {
+    self.headers.iter().find(|(k, _)| k.eq_ignore_ascii_case(name)).map(|(_, v)| v.as_str())
+  }
+  pub fn is_2xx(&self) -> bool {
+    (200..300).contains(&self.status)
+  }
+  pub fn json(&self) -> Option<Value> {
+    serde_json::from_slice(&self.body).ok()
+  }
+  pub fn body_text(&self) -> String {
+    let s = String::from_utf8_lossy(&self.body);
+    if s.len() > 300 {
+      format!("{}...", s.chars().take(300).collect::<String>())
+    } else {
+      s.into_owned()
+    }
+  }
+  /// `error.type` of the documented error envelope, if the body is one.
+  pub fn error_type(&self) -> Option<String> {
+    envelope(&self.body).map(|(t, _)| t)
+  }
+}
+
+/// `{"error":{"type":<string>,"reason":<string>}}` -> (type, reason).
+pub fn envelope(body: &[u8]) -> Option<(String, String)> {
+  let v: Value = serde_json::from_slice(body).ok()?;
+  let e = v.as_object()?.get("error")?.as_object()?;
+  Some((e.get("type")?.as_str()?.to_string(), e.get("reason")?.as_str()?.to_string()))
+}
+
+/// A well-framed HTTP/1.1 request: `body = None` sends neither a body nor Content-Length (what
+/// `curl -XPOST url` does), `Some(b)` sends Content-Length: len(b).
+pub fn request_bytes(method: &str, path: &str, ctype: Option<&str>, body: Option<&[u8]>) -> Vec<u8> {
+  let mut out = Vec::with_capacity(128 + body.map_or(0, |b| b.len()));
+  out.extend_from_slice(format!("{method} {path} HTTP/1.1\r\nHost: 127.0.0.1\r\nConnection: close\r\n").as_bytes());
+  if let Some(ct) = ctype {
+    out.extend_from_slice(format!("Content-Type: {ct}\r\n").as_bytes());
+  }
+  if let Some(b) = body {
+    out.extend_from_slice(format!("Content-Length: {}\r\n", b.len()).as_bytes());
+  }
+  out.extend_from_slice(b"\r\n");
+  if let Some(b) = body {
+    out.extend_from_slice(b);
+  }
+  out
+}
+
+fn find(hay: &[u8], needle: &[u8], from: usize) -> Option<usize> {
+  if hay.len() < needle.len() || from > hay.len() - needle.len() {
+    return None;
+  }
+  (from..=hay.len() - needle.len()).find(|&i| &hay[i..i + needle.len()] == needle)
+}
+
+enum Parse {
+  Complete(Resp),
+  NeedMore,
+  /// Complete only if the peer closes here (no Content-Length, not chunked).
+  UntilEof(Resp),
+  Bad(String),
+}
+
+fn parse_response(buf: &[u8]) -> Parse {
+  let mut start = 0;
+  loop {
+    let Some(hend) = find(buf, b"\r\n\r\n", start) else {
+      return Parse::NeedMore;
+    };
+    let head = match std::str::from_utf8(&buf[start..hend]) {
+      Ok(h) => h,
+      Err(_) => return Parse::Bad("response head is not UTF-8".into()),
+    };
+    let mut lines = head.split("\r\n");
+    let status_line = lines.next().unwrap_or("");
+    let mut parts = status_line.splitn(3, ' ');
+    let ver = parts.next().unwrap_or("");
+    let code = parts.next().unwrap_or("");
+    if !ver.starts_with("HTTP/1.") {
+      return Parse::Bad(format!("bad status line {status_line:?}"));
+    }
+    let Ok(status) = code.parse::<u16>() else {
+      return Parse::Bad(format!("bad status line {status_line:?}"));
+    };
+    let mut headers = Vec::new();
+    for l in lines {
+      match l.split_once(':') {
+        Some((k, v)) => headers.push((k.trim().to_string(), v.trim().to_string())),
+        None => return Parse::Bad(format!("bad header line {l:?}")),
+      }
+    }
+    let body_start = hend + 4;
+    if (100..200).contains(&status) {
+      start = body_start;
+      continue;
+    }
+    let get = |n: &str| headers.iter().find(|(k, _)| k.eq_ignore_ascii_case(n)).map(|(_, v)| v.clone());
+    if status == 204 || status == 304 {
+      return Parse::Complete(Resp { status, headers, body: Vec::new() });
+    }
+    if get("transfer-encoding").map(|v| v.to_ascii_lowercase().contains("chunked")).unwrap_or(false) {
+      let mut body = Vec::new();
+      let mut p = body_start;
+      loop {
+        let Some(le) = find(buf, b"\r\n", p) else {
+          return Parse::NeedMore;
+        };
+        let size_str = String::from_utf8_lossy(&buf[p..le]);
+        let size_str = size_str.split(';').next().unwrap_or("").trim().to_string();
+        let Ok(size) = usize::from_str_radix(&size_str, 16) else {
+          return Parse::Bad(format!("bad chunk size {size_str:?}"));
+        };
+        p = le + 2;
+        if size == 0 {
+          // trailers until the empty line
+          return match find(buf, b"\r\n", p) {
+            Some(_) => Parse::Complete(Resp { status, headers, body }),
+            None => Parse::NeedMore,
+          };
+        }
+        if buf.len() < p + size + 2 {
+          return Parse::NeedMore;
+        }
+        body.extend_from_slice(&buf[p..p + size]);
+        p += size + 2;
+      }
+    }
+    if let Some(cl) = get("content-length") {
+      let Ok(n) = cl.parse::<usize>() else {
+        return Parse::Bad(format!("bad Content-Length {cl:?}"));
+      };
+      if buf.len() < body_start + n {
+        return Parse::NeedMore;
+      }
+      return Parse::Complete(Resp { status, headers, body: buf[body_start..body_start + n].to_vec() });
+    }
+    return Parse::UntilEof(Resp { status, headers, body: buf[body_start..].to_vec() });
+  }
+}
+
+/// One request/response exchange on a new connection. `Err` describes why no complete HTTP
+/// response arrived (connect failure, close / reset / timeout before a complete response,
+/// unparsable response).
+pub fn exchange(port: u16, request: &[u8], timeout: Duration) -> Result<Resp, String> {
+  let addr: SocketAddr = format!("127.0.0.1:{port}").parse().unwrap();
+  let mut s = TcpStream::connect_timeout(&addr, timeout).map_err(|e| format!("connect: {e}"))?;
+  let _ = s.set_nodelay(true);
+  // SO_LINGER 0: close with RST once the exchange is over, so that tens of thousands of short
+  // connections do not park the ephemeral port range in TIME_WAIT.
+  {
+    use std::os::fd::AsRawFd;
+    let lg = libc::linger { l_onoff: 1, l_linger: 0 };
+    unsafe {
+      libc::setsockopt(s.as_raw_fd(), libc::SOL_SOCKET, libc::SO_LINGER, &lg as *const _ as *const libc::c_void, std::mem::size_of::<libc::linger>() as libc::socklen_t);
+    }
+  }
+  let _ = s.set_read_timeout(Some(timeout));
+  let _ = s.set_write_timeout(Some(timeout));
+  // a write error is not decisive: the server may answer (e.g. 413) and close before reading all
+  let werr = s.write_all(request).err();
+  let mut buf: Vec<u8> = Vec::with_capacity(1024);
+  let mut chunk = [0u8; 16384];
+  let started = Instant::now();
+  loop {
+    match parse_response(&buf) {
+      Parse::Complete(r) => return Ok(r),
+      Parse::Bad(m) => return Err(format!("malformed response: {m}")),
+      Parse::NeedMore | Parse::UntilEof(_) => {}
+    }
+    if started.elapsed() > timeout {
+      return Err(format!("timeout: no complete response within {timeout:?} ({} bytes received)", buf.len()));
+    }
+    match s.read(&mut chunk) {
+      Ok(0) => {
+        return match parse_response(&buf) {
+          Parse::Complete(r) | Parse::UntilEof(r) => Ok(r),
+          Parse::Bad(m) => Err(format!("malformed response: {m}")),
+          Parse::NeedMore => Err(format!(
+            "connection closed before a complete response ({} bytes received{})",
+            buf.len(),
+            werr.as_ref().map(|e| format!(", write error: {e}")).unwrap_or_default()
+          )),
+        };
+      }
+      Ok(n) => buf.extend_from_slice(&chunk[..n]),
+      Err(e) if matches!(e.kind(), std::io::ErrorKind::WouldBlock | std::io::ErrorKind::TimedOut) => {
+        return Err(format!("timeout: no complete response within {timeout:?} ({} bytes received)", buf.len()));
+      }
+      Err(e) if e.kind() == std::io::ErrorKind::Interrupted => {}
+      Err(e) => {
+        return match parse_response(&buf) {
+          Parse::Complete(r) => Ok(r),
+          _ => Err(format!("connection error before a complete response: {e} ({} bytes received)", buf.len())),
+        };
+      }
+    }
+  }
+}
+
+/// Schema used by both HTTP checks: `_id` + one stored, indexed text field `body`.
+pub fn http_schema() -> Value {
+  vcore::inp::schema_text_default()
+}
+
+pub const MATCH_ALL: &str = r#"{"query":{"type":"match_all"},"limit":100,"return_stored":true,"highlight_field":null,"execution":"bm25"}"#;
+
+// =============================================================================================
+// C23 model
+// =============================================================================================
+
+#[derive(Clone, Debug, PartialEq, Eq, Hash, PartialOrd, Ord)]
+enum QOp {
+  Add(&'static str, &'static str),
+  Del(&'static str),
+}
+
+#[derive(Clone, Copy, Debug, PartialEq, Eq, Hash, PartialOrd, Ord)]
+enum Act {
+  AddOne,
+  AddTwo,
+  AddInvalid,
+  AddValidInvalid,
+  AddBlank,
+  BulkValid,
+  BulkInvalid,
+  BulkValidInvalid,
+  DeleteValid,
+  DeleteWhitespace,
+  Commit,
+  Refresh,
+  Compact,
+  Search,
+}
+
+const ALPHABET: [Act; 14] = [
+  Act::AddOne,
+  Act::AddTwo,
+  Act::BulkValid,
+  Act::DeleteValid,
+  Act::Commit,
+  Act::AddInvalid,
+  Act::AddValidInvalid,
+  Act::AddBlank,
+  Act::BulkInvalid,
+  Act::BulkValidInvalid,
+  Act::DeleteWhitespace,
+  Act::Refresh,
+  Act::Compact,
+  Act::Search,
+];
+
+impl Act {
+  fn name(self) -> &'static str {
+    match self {
+      Act::AddOne => "add[a=v1]",
+      Act::AddTwo => "add[a=v2,b=v2]",
+      Act::AddInvalid => "add[c=<number>]",
+      Act::AddValidInvalid => "add[c=v3,d=<number>]",
+      Act::AddBlank => "add[blank]",
+      Act::BulkValid => "bulk[b=v4,c=v4]",
+      Act::BulkInvalid => "bulk[d=<number>]",
+      Act::BulkValidInvalid => "bulk[d=v5,e=<number>]",
+      Act::DeleteValid => "delete[a]",
+      Act::DeleteWhitespace => "delete[' ']",
+      Act::Commit => "commit",
+      Act::Refresh => "refresh",
+      Act::Compact => "compact",
+      Act::Search => "search",
+    }
+  }
+  fn from_name(s: &str) -> Option<Act> {
+    ALPHABET.iter().copied().find(|a| a.name() == s)
+  }
+  /// (path, content type, body)
+  fn request(self) -> (&'static str, Option<&'static str>, Option<&'static str>) {
+    const ND: Option<&str> = Some("application/x-ndjson");
+    const JS: Option<&str> = Some("application/json");
+    match self {
+      Act::AddOne => ("/add", ND, Some("{\"_id\":\"a\",\"body\":\"v1\"}\n")),
+      Act::AddTwo => ("/add", ND, Some("{\"_id\":\"a\",\"body\":\"v2\"}\n{\"_id\":\"b\",\"body\":\"v2\"}\n")),
+      Act::AddInvalid => ("/add", ND, Some("{\"_id\":\"c\",\"body\":5}\n")),
+      Act::AddValidInvalid => ("/add", ND, Some("{\"_id\":\"c\",\"body\":\"v3\"}\n{\"_id\":\"d\",\"body\":5}\n")),
+      Act::AddBlank => ("/add", ND, Some("\n  \n")),
+      Act::BulkValid => ("/bulk", JS, Some(r#"{"docs":[{"_id":"b","body":"v4"},{"_id":"c","body":"v4"}]}"#)),
+      Act::BulkInvalid => ("/bulk", JS, Some(r#"{"docs":[{"_id":"d","body":5}]}"#)),
+      Act::BulkValidInvalid => ("/bulk", JS, Some(r#"{"docs":[{"_id":"d","body":"v5"},{"_id":"e","body":5}]}"#)),
+      Act::DeleteValid => ("/delete", JS, Some(r#"{"ids":["a"]}"#)),
+      Act::DeleteWhitespace => ("/delete", JS, Some(r#"{"ids":[" "]}"#)),
+      Act::Commit => ("/commit", None, None),
+      Act::Refresh => ("/refresh", None, None),
+      Act::Compact => ("/compact", None, None),
+      Act::Search => ("/search", JS, Some(MATCH_ALL)),
+    }
+  }
+  /// Operations this request asks to queue, in request order (the invalid documents included:
+  /// an acknowledgement acknowledges the whole request).
+  fn ops(self) -> Vec<QOp> {
+    match self {
+      Act::AddOne => vec![QOp::Add("a", "v1")],
+      Act::AddTwo => vec![QOp::Add("a", "v2"), QOp::Add("b", "v2")],
+      Act::AddInvalid => vec![QOp::Add("c", "<number>")],
+      Act::AddValidInvalid => vec![QOp::Add("c", "v3"), QOp::Add("d", "<number>")],
+      Act::AddBlank => vec![],
+      Act::BulkValid => vec![QOp::Add("b", "v4"), QOp::Add("c", "v4")],
+      Act::BulkInvalid => vec![QOp::Add("d", "<number>")],
+      Act::BulkValidInvalid => vec![QOp::Add("d", "v5"), QOp::Add("e", "<number>")],
+      Act::DeleteValid => vec![QOp::Del("a")],
+      Act::DeleteWhitespace => vec![QOp::Del(" ")],
+      _ => vec![],
+    }
+  }
+  fn is_write(self) -> bool {
+    !matches!(self, Act::Commit | Act::Refresh | Act::Compact | Act::Search)
+  }
+  fn is_add_or_bulk(self) -> bool {
+    self.is_write() && !matches!(self, Act::DeleteValid | Act::DeleteWhitespace)
+  }
+}
+
+type Contents = BTreeMap<String, String>;
+
+#[derive(Clone, Debug, Default, PartialEq, Eq, Hash, PartialOrd, Ord)]
+struct Model {
+  queue: Vec<QOp>,
+  committed: Contents,
+}
+
+impl Model {
+  fn apply(committed: &mut Contents, q: &[QOp]) {
+    for op in q {
+      match op {
+        QOp::Add(id, body) => {
+          committed.insert(id.to_string(), body.to_string());
+        }
+        QOp::Del(id) => {
+          committed.remove(*id);
+        }
+      }
+    }
+  }
+  fn after_commit(&self) -> Contents {
+    let mut c = self.committed.clone();
+    Model::apply(&mut c, &self.queue);
+    c
+  }
+  /// The queue model of the property. `ack` = the response was 2xx.
+  fn step(&mut self, a: Act, ack: bool) {
+    if a.is_write() {
+      if ack {
+        self.queue.extend(a.ops());
+      }
+    } else if a == Act::Commit && ack {
+      self.committed = self.after_commit();
+      self.queue.clear();
+    }
+  }
+  /// What the H11 defect predicts: as `step`, but a /add or /bulk request rejected by the writer
+  /// (`add_failed`) also empties the whole shared queue.
+  fn step_h11(&mut self, a: Act, ack: bool, err_type: Option<&str>) {
+    if a.is_add_or_bulk() && !ack && err_type == Some("add_failed") {
+      self.queue.clear();
+      return;
+    }
+    self.step(a, ack);
+  }
+  fn describe(&self) -> Value {
+    let q: Vec<String> = self
+      .queue
+      .iter()
+      .map(|o| match o {
+        QOp::Add(i, b) => format!("add {i}={b}"),
+        QOp::Del(i) => format!("del {i}"),
+      })
+      .collect();
+    json!({"queue": q, "committed": self.committed})
+  }
+}
+
+pub const SIG_H11: &str = "C23-rejected-write-rolls-back-earlier-acks";
+
+struct Eval {
+  /// (action, status, error type) as observed
+  steps: Vec<(Act, u16, Option<String>)>,
+  model: Model,
+  failure: Option<(Option<&'static str>, String)>,
+}
+
+fn parse_hits(r: &Resp) -> Result<Contents, String> {
+  let v = r.json().ok_or_else(|| format!("search body is not JSON: {}", r.body_text()))?;
+  let hits = v.get("hits").and_then(|h| h.as_array()).ok_or_else(|| format!("search body has no hits array: {}", r.body_text()))?;
+  let mut out = Contents::new();
+  for h in hits {
+    let id = h.get("doc_id").and_then(|x| x.as_str()).ok_or_else(|| format!("hit without doc_id: {h}"))?;
+    let body = match h.get("fields").and_then(|f| f.get("body")) {
+      Some(Value::String(s)) => s.clone(),
+      Some(other) => other.to_string(),
+      None => "<no stored body>".into(),
+    };
+    if out.insert(id.to_string(), body).is_some() {
+      return Err(format!("duplicate doc_id {id} in match_all"));
+    }
+  }
+  Ok(out)
+}
+
+fn do_act(srv: &Server, a: Act) -> Result<Resp, String> {
+  let (path, ct, body) = a.request();
+  srv.send("POST", path, ct, body.map(|b| b.as_bytes()))
+}
+
+/// match_all; a mismatch is re-checked once after /refresh (the README allows a reader refresh to
+/// be needed "depending on your staleness needs").
+fn observe(srv: &Server, expected: &Contents) -> Result<Result<(), Contents>, String> {
+  let r = do_act(srv, Act::Search)?;
+  if !r.is_2xx() {
+    return Err(format!("POST /search match_all answered {} {}", r.status, r.body_text()));
+  }
+  let got = parse_hits(&r)?;
+  if &got == expected {
+    return Ok(Ok(()));
+  }
+  let _ = do_act(srv, Act::Refresh)?;
+  let r = do_act(srv, Act::Search)?;
+  if !r.is_2xx() {
+    return Err(format!("POST /search match_all answered {} {}", r.status, r.body_text()));
+  }
+  let got = parse_hits(&r)?;
+  if &got == expected {
+    Ok(Ok(()))
+  } else {
+    Ok(Err(got))
+  }
+}
+
+fn seq_str(seq: &[Act]) -> String {
+  seq.iter().map(|a| a.name()).collect::<Vec<_>>().join(" ; ")
+}
+
+/// Replay `seq` on a fresh server and check every response and observation against the model;
+/// finish with the probe `search ; commit ; search`, which makes the hidden queue observable.
+fn evaluate(seq: &[Act]) -> Eval {
+  let srv = Server::fresh("c23", &[]);
+  let mut ev = Eval { steps: Vec::new(), model: Model::default(), failure: None };
+  let mut h11 = Model::default();
+  macro_rules! machinery {
+    ($e:expr) => {
+      match $e {
+        Ok(v) => v,
+        Err(e) => {
+          if !srv.is_running() {
+            vcore::ev::machinery_failure(&format!("C23: server stopped during [{}]: {e}", seq_str(seq)));
+          }
+          ev.failure = Some((None, format!("[{}]: {e}", seq_str(seq))));
+          return ev;
+        }
+      }
+    };
+  }
+  let r = machinery!(srv.post_json("/init", &http_schema()));
+  if !r.is_2xx() {
+    vcore::ev::machinery_failure(&format!("C23: /init failed: {} {}", r.status, r.body_text()));
+  }
+  // (step label, observed) -> compare with both models
+  let check_obs = |label: String, expected: &Contents, h11_expected: &Contents, srv: &Server| -> Result<(), (Option<&'static str>, String)> {
+    match observe(srv, expected) {
+      Err(e) => Err((None, format!("[{}] {label}: {e}", seq_str(seq)))),
+      Ok(Ok(())) => Ok(()),
+      Ok(Err(got)) => {
+        let sig = if &got == h11_expected && h11_expected != expected { Some(SIG_H11) } else { None };
+        let missing: Vec<&String> = expected.keys().filter(|k| got.get(*k) != expected.get(*k)).collect();
+        Err((
+          sig,
+          format!(
+            "[{}] {label}: match_all returns {:?}, the queue model expects {:?} (wrong or missing: {:?}){}",
+            seq_str(seq),
+            got,
+            expected,
+            missing,
+            if sig.is_some() { "; exactly the writes acknowledged before a later rejected /add|/bulk (add_failed) are lost" } else { "" }
+          ),
+        ))
+      }
+    }
+  };
+  for (i, &a) in seq.iter().enumerate() {
+    let r = machinery!(do_act(&srv, a));
+    let ack = r.is_2xx();
+    let et = if ack { None } else { r.error_type() };
+    ev.steps.push((a, r.status, et.clone()));
+    if a == Act::Search {
+      if !ack {
+        ev.failure = Some((None, format!("[{}] step {}: match_all search answered {} {}", seq_str(seq), i + 1, r.status, r.body_text())));
+        return ev;
+      }
+      // queued writes are not searchable before /commit
+      if let Err(f) = check_obs(format!("step {} (search)", i + 1), &ev.model.committed, &h11.committed, &srv) {
+        ev.failure = Some(f);
+        return ev;
+      }
+      continue;
+    }
+    if a.is_write() && ack {
+      let want = a.ops().len() as u64;
+      let got = r.json().and_then(|v| v.get("queued").and_then(|q| q.as_u64()));
+      if got != Some(want) {
+        ev.failure = Some((None, format!("[{}] step {}: {} acknowledged with body {} but the request carries {want} operations", seq_str(seq), i + 1, a.name(), r.body_text())));
+        return ev;
+      }
+    }
+    if a == Act::Commit && !ack {
+      ev.failure = Some((
+        None,
+        format!("[{}] step {}: /commit of acknowledged writes {} failed: {} {}", seq_str(seq), i + 1, ev.model.describe(), r.status, r.body_text()),
+      ));
+      return ev;
+    }
+    ev.model.step(a, ack);
+    h11.step_h11(a, ack, et.as_deref());
+    if a == Act::Commit {
+      if let Err(f) = check_obs(format!("after step {} (commit)", i + 1), &ev.model.committed, &h11.committed, &srv) {
+        ev.failure = Some(f);
+        return ev;
+      }
+    }
+  }
+  // probe: nothing queued is visible yet; a commit applies exactly the model queue
+  if let Err(f) = check_obs("probe search before commit".into(), &ev.model.committed, &h11.committed, &srv) {
+    ev.failure = Some(f);
+    return ev;
+  }
+  let r = machinery!(do_act(&srv, Act::Commit));
+  if !r.is_2xx() {
+    ev.failure = Some((None, format!("[{}] probe /commit of acknowledged writes {} failed: {} {}", seq_str(seq), ev.model.describe(), r.status, r.body_text())));
+    return ev;
+  }
+  if let Err(f) = check_obs("probe commit + search".into(), &ev.model.after_commit(), &h11.after_commit(), &srv) {
+    ev.failure = Some(f);
+    return ev;
+  }
+  if !srv.is_running() {
+    vcore::ev::machinery_failure("C23: server task ended during an evaluation");
+  }
+  ev
+}
+
+fn case_json(seq: &[Act]) -> Value {
+  json!({"engine": "httpmc", "schema": http_schema(), "sequence": seq.iter().map(|a| a.name()).collect::<Vec<_>>(),
+    "requests": seq.iter().map(|a| { let (p, ct, b) = a.request(); json!({"method": "POST", "path": p, "content_type": ct, "body": b}) }).collect::<Vec<_>>(),
+    "probe": ["search", "commit", "search"]})
+}
+
+pub fn run(ctx: &Ctx) -> i32 {
+  let mut rep = Reporter::new("C23", ctx.tier, "model_checking");
+  let quick = ctx.tier.is_quick();
+  if let Some(path) = &ctx.replay {
+    rep.set_replaying(true);
+    let v: Value = serde_json::from_slice(&std::fs::read(path).expect("replay file")).expect("json");
+    let seq: Vec<Act> = v["case"]["sequence"]
+      .as_array()
+      .expect("case.sequence")
+      .iter()
+      .map(|s| Act::from_name(s.as_str().unwrap_or("")).unwrap_or_else(|| vcore::ev::machinery_failure(&format!("unknown action {s}"))))
+      .collect();
+    let a = evaluate(&seq).failure;
+    let b = evaluate(&seq).failure;
+    if a.is_some() != b.is_some() {
+      vcore::ev::machinery_failure("NONDETERMINISM on replay");
+    }
+    return match a {
+      Some((sig, w)) => {
+        println!("VIOLATION property=C23 replay={path}\n  signature: {}\n  what: {w}", sig.unwrap_or("-"));
+        1
+      }
+      None => {
+        println!("replay: no violation");
+        0
+      }
+    };
+  }
+
+  let max_depth = if quick { 4 } else { 6 };
+  let deadline = if quick { 30.0 } else { 840.0 };
+  let mut visited: HashMap<Model, Vec<Act>> = HashMap::new();
+  visited.insert(Model::default(), vec![]);
+  let mut frontier: Vec<(Vec<Act>, Model)> = vec![(vec![], Model::default())];
+  let mut transitions = 0u64;
+  let mut nontrivial = 0u64;
+  let mut failing_transitions = 0u64;
+  let mut outcomes: HashSet<String> = HashSet::new();
+  let mut depth_reached = 0;
+  let mut cap_hit: Option<String> = None;
+  let mut per_depth: Vec<Value> = Vec::new();
+  for depth in 1..=max_depth {
+    if frontier.is_empty() {
+      break;
+    }
+    let jobs: Vec<(usize, Act)> = (0..frontier.len()).flat_map(|i| ALPHABET.iter().map(move |a| (i, *a))).collect();
+    let results: Vec<Option<Eval>> = jobs
+      .par_iter()
+      .map(|(i, a)| {
+        if rep.elapsed_s() > deadline {
+          return None;
+        }
+        let mut seq = frontier[*i].0.clone();
+        seq.push(*a);
+        Some(evaluate(&seq))
+      })
+      .collect();
+    let mut next: Vec<(Vec<Act>, Model)> = Vec::new();
+    let mut done = 0u64;
+    for ((i, a), res) in jobs.iter().zip(results) {
+      let Some(ev) = res else {
+        cap_hit = Some(format!("wall budget {deadline}s reached at depth {depth}"));
+        continue;
+      };
+      done += 1;
+      rep.eval();
+      let mut seq = frontier[*i].0.clone();
+      seq.push(*a);
+      if let Some((_, st, et)) = ev.steps.last() {
+        outcomes.insert(format!("{}:{}:{}", a.name().split('[').next().unwrap_or(""), st, et.clone().unwrap_or_default()));
+      }
+      // non-trivial: something acknowledged is pending or committed when the action is issued
+      let pre = &frontier[*i].1;
+      if !pre.queue.is_empty() || !pre.committed.is_empty() {
+        nontrivial += 1;
+      }
+      match ev.failure {
+        Some((sig, what)) => {
+          failing_transitions += 1;
+          outcomes.insert(format!("FAIL:{}", sig.unwrap_or("-")));
+          rep.fail(sig, &what, case_json(&seq));
+        }
+        None => {
+          if seq.len() >= 3 && ev.model.queue.len() >= 2 {
+            rep.sample(json!({"sequence": seq_str(&seq), "statuses": ev.steps.iter().map(|s| s.1).collect::<Vec<_>>(), "model_after": ev.model.describe()}));
+          }
+          if !visited.contains_key(&ev.model) {
+            visited.insert(ev.model.clone(), seq.clone());
+            next.push((seq, ev.model));
+          }
+        }
+      }
+    }
+    transitions += done;
+    per_depth.push(json!({"depth": depth, "states_expanded": frontier.len(), "transitions": done, "new_states": next.len()}));
+    if cap_hit.is_some() {
+      break;
+    }
+    depth_reached = depth;
+    frontier = next;
+  }
+  if outcomes.len() < 2 || !outcomes.iter().any(|o| o.contains(":200:")) || !outcomes.iter().any(|o| o.contains(":400:")) {
+    vcore::ev::machinery_failure(&format!("C23 vacuous: observed outcomes {outcomes:?}"));
+  }
+  let mut oc: Vec<&String> = outcomes.iter().collect();
+  oc.sort();
+  let cov = vcore::cov! {
+    "states" => visited.len(),
+    "transitions" => transitions,
+    "traces_validated_against_impl" => transitions,
+    "max_depth" => depth_reached,
+    "per_depth" => per_depth,
+    "alphabet" => ALPHABET.iter().map(|a| a.name()).collect::<Vec<_>>(),
+    "distinct_nontrivial" => nontrivial,
+    "rule" => "BFS over request sequences (14-letter alphabet) from the freshly initialised index; state = (model queue, model committed contents), deduplicated; every (state, request) transition is replayed as a whole sequence on a fresh live server and followed by the probe search;commit;search. Oracle per step: 2xx write => its operations are appended to the model queue (and `queued` equals their number), non-2xx => queue unchanged; search == committed contents (ids + stored body); commit must succeed and then search == queue applied in order. A transition is non-trivial when acknowledged operations are pending or committed at the time the request is issued.",
+    "failing_transitions" => failing_transitions,
+    "distinct_observed_outcomes" => outcomes.len(),
+    "observed_outcomes" => oc,
+    "exhaustive" => cap_hit.is_none(),
+    "cap_hit" => cap_hit,
+  };
+  rep.finish(
+    cov,
+    vec![
+      "state equivalence is observational: two sequences with the same model state are merged if the probe (search, commit, search) agrees with the model".into(),
+      "a match_all mismatch is only reported if it persists after POST /refresh (README: refresh optional 'depending on your staleness needs')".into(),
+      "/bulk takes the documented JSON body {\"docs\":[..]} (openapi.yaml), not NDJSON".into(),
+      "unknown document fields, ids with control characters and concurrent requests are outside this alphabet".into(),
+    ],
+  )
 }
